@@ -27,6 +27,11 @@ class Frame:
         for n in ast.walk(f.node):
             if isinstance(n, ast.Assign) and len(n.targets) == 1 and isinstance(n.targets[0], ast.Name):
                 self.defs.setdefault(n.targets[0].id, []).append(n.value)
+            elif isinstance(n, ast.Assign) and len(n.targets) == 1 and isinstance(n.targets[0], ast.Tuple) and \
+                    isinstance(n.value, ast.Tuple) and len(n.value.elts) == len(n.targets[0].elts):
+                for t_, v_ in zip(n.targets[0].elts, n.value.elts):
+                    if isinstance(t_, ast.Name):
+                        self.defs.setdefault(t_.id, []).append(v_)
 
     def ev(self, e, depth=0):
         if depth > 8:
@@ -132,28 +137,64 @@ def check_plane_reader(ctx, rule, f):
                     what.append('the range is %r long, not the window width' % (hi - lo,))
                 ctx.fail(rule, f, enclosing_stmt(n), 'source header range `%s` = [%r, ...): %s; headers of other traces are '
                          'stored' % (U(n.slice)[:60], lo, '; '.join(what) or 'unexpected form'), line=n.lineno)
-    # --- decomposition of the running source trace ordinal and the local store position
+    # --- decomposition of the running source trace ordinal and the local store position: the index of every store
+    #     `array[IDX] = header[field]` into a header array, with locals resolved, where  t % D / t // D  of the running
+    #     source ordinal t (the enumerate counter) stand for the source crossline / inline ordinals when D is the
+    #     source crossline count
+    stores = []
     for n in ast.walk(f.node):
-        if isinstance(n, ast.Assign) and isinstance(n.value, ast.Tuple) and len(n.value.elts) == 2:
-            a, b = n.value.elts
-            if isinstance(a, ast.BinOp) and isinstance(a.op, ast.Mod) and isinstance(b, ast.BinOp) and \
-                    isinstance(b.op, ast.FloorDiv) and U(a.left) == U(b.left):
-                n_loc += 1
-                if U(a.right) == U(b.right) == 'len(seismicfile.xlines)':
-                    ctx.ok(rule, f, n, 'source trace ordinal is split with the source crossline count')
-                else:
-                    ctx.fail(rule, f, n, 'source trace ordinal is split with `%s` / `%s`, not with the crossline count of the '
-                             'source' % (U(a.right), U(b.right)))
-    for n in ast.walk(f.node):
-        if isinstance(n, ast.Assign) and U(n.targets[0]) == 't_store':
-            p = fr.ev(n.value)
-            n_loc += 1
-            want = (A_('t_xl') - A_('O_XL')) + (A_('t_il') - A_('O_IL')) * A_('WXL')
-            if p == want:
-                ctx.ok(rule, f, n, 'local store position = (xl - origin_xl) + (il - origin_il) * window width', sample={'poly': repr(p)})
-            else:
-                ctx.fail(rule, f, n, 'header store position `%s` = %r is not (t_xl - origin_xl) + (t_il - origin_il)*len(geom.xlines)' % (
-                    U(n.value)[:60], p))
+        if isinstance(n, ast.Assign) and len(n.targets) == 1 and isinstance(n.targets[0], ast.Subscript) and \
+                isinstance(n.value, ast.Subscript) and isinstance(n.targets[0].value, ast.Name):
+            base = n.targets[0].value.id
+            # the array is a value of the header dictionary: loop variable over <dict>.items() / .values()
+            for lp in ast.walk(f.node):
+                if isinstance(lp, ast.For) and any(n is x for x in ast.walk(lp)) and isinstance(lp.iter, ast.Call) and \
+                        isinstance(lp.iter.func, ast.Attribute) and lp.iter.func.attr in ('items', 'values') and \
+                        'headers_dict' in U(lp.iter.func.value) and base in [x.id for x in ast.walk(lp.target) if isinstance(x, ast.Name)]:
+                    stores.append(n)
+    for n in stores:
+        idx = n.targets[0].slice
+        splits = []
+
+        class SplitFrame(Frame):
+            def ev(self_, e, depth=0):
+                if isinstance(e, ast.BinOp) and isinstance(e.op, (ast.Mod, ast.FloorDiv)):
+                    l = Frame.ev(self_, e.left, depth + 1)
+                    d = Frame.ev(self_, e.right, depth + 1)
+                    if l == A('t'):
+                        splits.append((e, d))
+                        return A('t_xl') if isinstance(e.op, ast.Mod) else A('t_il')
+                    return None
+                return Frame.ev(self_, e, depth)
+        at = dict(fr.atom_text)
+        at.pop('t_xl', None)
+        at.pop('t_il', None)
+        sf = SplitFrame(f, at)
+        for nm in ('t_xl', 't_il'):
+            sf.T.declare(nm, 0, None)
+        # the running ordinal: counter of `for t, header in enumerate(headers, start)`
+        for lp in ast.walk(f.node):
+            if isinstance(lp, ast.For) and any(n is x for x in ast.walk(lp)) and isinstance(lp.iter, ast.Call) and \
+                    U(lp.iter.func) == 'enumerate' and isinstance(lp.target, ast.Tuple) and isinstance(lp.target.elts[0], ast.Name):
+                sf.atom_text[lp.target.elts[0].id] = 't'
+        p = sf.ev(idx)
+        n_loc += 1
+        bad_split = [(e, d) for (e, d) in splits if d != A('SXL')]
+        if bad_split:
+            e, d = bad_split[0]
+            ctx.fail(rule, f, enclosing_stmt(e) if enclosing_stmt(e) is not None else n, 'source trace ordinal is split with `%s`, not with the '
+                     'crossline count of the source' % U(e.right), line=getattr(e, 'lineno', n.lineno))
+        elif splits:
+            ctx.ok(rule, f, 'split of the source trace ordinal', 'source trace ordinal is split with the source crossline count')
+        n_loc += 1
+        want = (A_('t_xl') - A_('O_XL')) + (A_('t_il') - A_('O_IL')) * A_('WXL')
+        if p is None:
+            raise AnalysisError('%s: header store position `%s` does not normalise' % (f.qualname, U(idx)[:60]))
+        if p == want:
+            ctx.ok(rule, f, n, 'local store position = (xl - origin_xl) + (il - origin_il) * window width', sample={'poly': repr(p)})
+        elif not bad_split:
+            ctx.fail(rule, f, n, 'header store position `%s` = %r is not (t_xl - origin_xl) + (t_il - origin_il)*len(geom.xlines)' % (
+                U(idx)[:60], p))
     # --- window-local buffer indices are origin free
     for n in ast.walk(f.node):
         if isinstance(n, ast.Subscript) and isinstance(n.ctx, ast.Store) and U(n.value) == 'seismic_buffer':
